@@ -17,7 +17,8 @@ from pathlib import Path
 from typing import Any
 
 from harness.common import Check, err_enum
-from harness.facade_common import (ABSENT, cell_text, delivered_token, gen_table, obs_token, observe_heading, write_csv, write_xlsx)
+from harness.facade_common import (ABSENT, cell_text, delivered_token, gen_table, hexcell, obs_token, observe_heading, write_csv,
+                                   write_xlsx)
 
 
 def observe_file(path: Path) -> Any:
@@ -125,11 +126,21 @@ def explore(ck: Check, n_tables: int, xlsx_every: int) -> None:
                         sheet2.set_schema(SchemaMaker.from_json({"type": "object", "properties": {"ZZ": {"type": "string", "position": 0}}}))
                     sheet2.set_schema_loader(HeadingRowSchemaLoader())
                     passes = []
+                    sops = (["S=" + hexcell("ZZ")] if hasattr(sheet2, "schema") else []) + ["L=h"]
+                    simpl = []
                     for content in (t, tp):
                         buf.seek(0); buf.truncate(0)
                         _csv.writer(buf).writerows(content)
                         buf.seek(0)
-                        passes.append([{h: cell_text(r.name(h).value()) for h in t[0]} for r in sheet2.rows()])
+                        rows2 = list(sheet2.rows())
+                        passes.append([{h: cell_text(r.name(h).value()) for h in t[0]} for r in rows2])
+                        sops.append("P=" + "/".join(".".join(hexcell(c) for c in r) if r else "~" for r in content))
+                        props = sheet2.schema.properties  # type: ignore[attr-defined]
+                        simpl.append(".".join(f"{hexcell(k)}@{v.attributes['position']}" for k, v in props.items()) + ":" +
+                                     ("/".join(".".join(hexcell(cell_text(c)) for c in r.instance) for r in rows2) or "!"))
+                    reqs.append("FAC sheet " + " ".join(sops))
+                    impl.append("|".join(simpl))
+                    inputs.append({"table": t, "sigma": sigma, "what": "two passes over one Sheet object"})
                     want_named = [dict(zip(t[0], r)) for r in t[1:]]
                     if passes[0] != want_named or passes[1] != want_named:
                         which = "first" if passes[0] != want_named else "second"
